@@ -105,7 +105,9 @@ func applyPerm(perm []int, swap func(i, j int)) {
 }
 
 func (r *Rand) Shuffle(n int, swap func(i, j int)) {
-	r.touch()
+	if n >= 2 {
+		r.touch() // the real Shuffle draws (touches the generator state) only for n >= 2
+	}
 	if !controlled() {
 		r.real.Shuffle(n, swap)
 		return
@@ -114,7 +116,9 @@ func (r *Rand) Shuffle(n int, swap func(i, j int)) {
 }
 
 func (r *Rand) Perm(n int) []int {
-	r.touch()
+	if n >= 2 {
+		r.touch()
+	}
 	if !controlled() {
 		return r.real.Perm(n)
 	}
